@@ -347,7 +347,7 @@ def build_ocaml(drivers=None, timeout=900):
 
 
 # ----------------------------------------------------------------------------------------------- C++ harness
-def _compile_one(src, flags, workdir):
+def _compile_one(src, flags, workdir, CXX=CXX):
     """compile one translation unit through a content-addressed object cache; returns (obj or None, log)"""
     rc, pre, e = sh([CXX] + flags + ["-E", "-P", src], timeout=300)
     if rc != 0:
@@ -387,20 +387,21 @@ def _trim_cache(limit_bytes=600 * 1024 * 1024):
             pass
 
 
-def build_harness(harness_cpp, repo_srcs, workdir, extra_flags=(), exe_name="harness"):
+def build_harness(harness_cpp, repo_srcs, workdir, extra_flags=(), exe_name="harness", cxx=None, base_flags=None):
     """compile harness + the listed /repo sources from the *working tree*; returns (exe or None, log)"""
-    flags = CXXFLAGS + list(extra_flags)
+    CXX = cxx or globals()["CXX"]
+    flags = (CXXFLAGS if base_flags is None else list(base_flags)) + list(extra_flags)
     srcs = [os.path.join(VERIF, "harness", harness_cpp)] + [os.path.join(REPO, s) for s in repo_srcs]
     missing = [s for s in srcs if not os.path.exists(s)]
     if missing:
         return None, "missing source(s): " + ", ".join(missing)
     with ThreadPoolExecutor(max_workers=NCPU) as ex:
-        res = list(ex.map(lambda s: _compile_one(s, flags, workdir), srcs))
+        res = list(ex.map(lambda s: _compile_one(s, flags, workdir, CXX), srcs))
     logs = "\n".join(l for _, l in res if l)
     if any(o is None for o, _ in res):
         return None, logs
     exe = os.path.join(workdir, exe_name)
-    link = [f for f in extra_flags if f.startswith("-fsanitize") or f == "-pthread"]
+    link = [f for f in flags if f.startswith("-fsanitize") or f == "-pthread"]
     rc, o, e = sh([CXX] + [o for o, _ in res] + link + ["-pthread", "-o", exe], timeout=300)
     _trim_cache()
     if rc != 0:
@@ -535,6 +536,21 @@ def run_check(pid, tier="quick", seed=None, replay=None):
                     res.nontrivial.add(nt if isinstance(nt, str) else case)
                 if len(res.samples) < 6 and i % max(1, len(cases) // 3) == 0:
                     res.samples.append({"group": gname, "case": case[:400], "impl": il[:400], "model": (ml or "")[:400]})
+        if chk.get("extra_checks") and not replay:
+            for item in chk["extra_checks"](work, tier, rng):
+                if item.get("kind") == "oracle":
+                    res.oracle_failures.append({"case": item.get("case", ""), "impl": item.get("impl", ""), "model": None,
+                                                "key": item["key"], "msg": item["msg"], "group": item.get("group", "extra")})
+                elif item.get("kind") == "tie":
+                    res.tie_failures.append((item.get("what", "extra"), item["msg"]))
+                elif item.get("kind") == "stat":
+                    res.evaluations += item.get("evaluations", 0)
+                    res.stats[item.get("group", "extra")] = item.get("evaluations", 0)
+                    for nt in item.get("nontrivial", []):
+                        res.nontrivial.add(nt)
+                    res.samples += item.get("samples", [])[:3]
+        if coq["obligations"] == 0:
+            res.tie_failures.append(("proof", "no theorem found in %s.v" % chk.get("coq", "Properties_" + pid)))
         # 6. verdict
         kfs = load_known_findings(pid)
         open_keys = {k["key"]: k for k in kfs if k.get("status") == "open"}
